@@ -435,6 +435,9 @@ impl From<StringKey> for IsographDirectiveName { #[verifier::external_body] fn f
 /// `s.contains(c)` for a char pattern
 #[verifier::external_body]
 pub fn str_contains_char(s: &str, c: char) -> bool { unimplemented!() }
+/// `a == b` / `a != b` on &str
+#[verifier::external_body]
+pub fn str_eq(a: &str, b: &str) -> bool { unimplemented!() }
 #[derive(Clone, Copy)] pub struct SelectableName(pub StringKey);
 impl From<StringKey> for SelectableName { #[verifier::external_body] fn from(k: StringKey) -> Self { SelectableName(k) } }
 #[derive(Clone, Copy)] pub struct SelectableAlias(pub StringKey);
@@ -649,6 +652,87 @@ pub type NameValuePair<TName, TValue> = NameValuePairInner<TName, TValue, Embedd
             requires old(tokens).inv(),
             ensures final(tokens).inv(), final(tokens).same_literal(old(tokens)), final(tokens).monotone(old(tokens)),
                 cr is Ok ==> final(tokens).progressed(old(tokens)),
+//@end
+
+// ---- variable definitions -------------------------------------------------------------
+#[derive(Clone, Copy)] pub struct VariableName(pub StringKey);
+impl From<StringKey> for VariableName { #[verifier::external_body] fn from(k: StringKey) -> Self { VariableName(k) } }
+#[derive(Clone, Copy)] pub struct VariableNameWrapper(pub VariableName);
+impl From<VariableName> for VariableNameWrapper { #[verifier::external_body] fn from(k: VariableName) -> Self { VariableNameWrapper(k) } }
+#[verifier::external_body]
+pub struct GraphQLTypeAnnotation { p: core::marker::PhantomData<u8> }
+#[verifier::external_body]
+pub struct TypeAnnotationDeclaration { p: core::marker::PhantomData<u8> }
+impl TypeAnnotationDeclaration {
+    #[verifier::external_body]
+    pub fn from_graphql_type_annotation(t: GraphQLTypeAnnotation) -> TypeAnnotationDeclaration { unimplemented!() }
+}
+#[verifier::external_body]
+#[verifier::reject_recursive_types(TLocation)]
+pub struct ConstantValueInner<TLocation> { p: core::marker::PhantomData<TLocation> }
+pub type ConstantValue = ConstantValueInner<EmbeddedLocation>;
+/// `non_constant_value.item.try_into()` (TryFrom<NonConstantValue> for ConstantValue)
+#[verifier::external_body]
+pub fn constant_value_of(v: NonConstantValue) -> Result<ConstantValue, VariableNameWrapper> { unimplemented!() }
+//@item rel=crates/isograph_lang_types/src/declarations/variable_declaration.rs kind=struct name=VariableDeclarationInner prefix="#[verifier::reject_recursive_types(TLocation)] pub"
+pub type VariableDeclaration = VariableDeclarationInner<EmbeddedLocation>;
+
+/// parse_type_annotation: alternatives are closures capturing `tokens` mutably (outside
+/// Verus); contract assumed for the composition
+#[verifier::external_body]
+pub fn parse_type_annotation(tokens: &mut PeekableLexer<'_>) -> (r: DiagnosticResult<WithEmbeddedLocation<GraphQLTypeAnnotation>>)
+    requires old(tokens).inv(),
+    ensures final(tokens).inv(), final(tokens).same_literal(old(tokens)), final(tokens).monotone(old(tokens)),
+        r is Ok ==> final(tokens).progressed(old(tokens)) && located_from(r->Ok_0, old(tokens)),
+{ unimplemented!() }
+
+//@fn rel=crates/isograph_lang_parser/src/parse_iso_literal.rs name=parse_optional_default_value vis=pub ret=r serves=C07
+//@rw R6b R15 R16 R4
+//@sub "non_constant_value\.item\.try_into\(\)" => "constant_value_of(non_constant_value.item)" n=1
+//@contract
+    requires old(tokens).inv(),
+    ensures
+        final(tokens).inv(), //@O C07.O-5_parse_optional_default_value_preserves_cursor_invariant
+        final(tokens).same_literal(old(tokens)), final(tokens).monotone(old(tokens)),
+//@end
+
+//@fn rel=crates/isograph_lang_parser/src/parse_iso_literal.rs name=parse_variable_definition vis=pub ret=r serves=C07
+//@rw R4
+//@contract
+    requires old(tokens).inv(),
+    ensures
+        final(tokens).inv(), //@O C07.O-5_parse_variable_definition_preserves_cursor_invariant
+        final(tokens).same_literal(old(tokens)), final(tokens).monotone(old(tokens)),
+        r is Ok ==> final(tokens).progressed(old(tokens)) && located_from(r->Ok_0, old(tokens)), //@O C07.O-5_variable_definition_span_well_formed
+//@closure 1 params="tokens: &mut PeekableLexer<'_>" ret="cr: Result<VariableDeclaration, Diagnostic>"
+            requires old(tokens).inv(),
+            ensures final(tokens).inv(), final(tokens).same_literal(old(tokens)), final(tokens).monotone(old(tokens)),
+                cr is Ok ==> final(tokens).progressed(old(tokens)),
+//@end
+
+//@fn rel=crates/isograph_lang_parser/src/parse_iso_literal.rs name=parse_variable_definitions vis=pub ret=r serves=C07
+//@rw R4
+//@hsub "tokens: &mut PeekableLexer," => "tokens: &mut PeekableLexer<'_>,"
+//@sub "Ok\(vec!\[\]\)" => "Ok(Vec::new())" n=1
+//@contract
+    requires old(tokens).inv(),
+    ensures
+        final(tokens).inv(), //@O C07.O-5_parse_variable_definitions_preserves_cursor_invariant
+        final(tokens).same_literal(old(tokens)), final(tokens).monotone(old(tokens)),
+//@closure 1 params="item: &mut PeekableLexer<'_>" ret="cr: DiagnosticResult<WithEmbeddedLocation<VariableDeclaration>>"
+            requires old(item).inv(),
+            ensures final(item).inv(), final(item).same_literal(old(item)), final(item).monotone(old(item)),
+//@end
+
+//@fn rel=crates/isograph_lang_parser/src/parse_iso_literal.rs name=parse_client_pointer_target_type vis=pub ret=r serves=C07
+//@rw R15 R16 R4
+//@sub "keyword\.item != \"to\"" => "!str_eq(keyword.item, \"to\")" n=1
+//@contract
+    requires old(tokens).inv(),
+    ensures
+        final(tokens).inv(), //@O C07.O-5_parse_client_pointer_target_type_preserves_cursor_invariant
+        final(tokens).same_literal(old(tokens)), final(tokens).monotone(old(tokens)),
+        r is Ok ==> final(tokens).progressed(old(tokens)),
 //@end
 
 // ---- string / block-string callbacks of the logos lexer (token_kind.rs) ---------------
